@@ -118,7 +118,8 @@ def proj_node(n) -> dict:
             elif rd(t, "symbol") == "compat.meta_json":
                 a = rd(t, "args")
                 try:
-                    vj = json.dumps(json.loads(lit(a[1])), sort_keys=True)
+                    # (non-finite floats are not JSON: the document carries null for them, and so does this projection)
+                    vj = json.dumps(json.loads(lit(a[1]), parse_constant=lambda _tok: None), sort_keys=True)
                 except Exception:  # noqa: BLE001
                     vj = f"<not json: {lit(a[1])!r}>"
                 metakeys.append(f"{lit(a[0])}={vj}")
